@@ -145,6 +145,22 @@ impl Obs {
 }
 
 /// Observe `g` through keys/len/is_empty/kids/kid/v_print (+ inspect and Debug when `deep`).
+/// Only keys(), len() and is_empty(): what the safety and alive-set clauses need, and nothing
+/// that would keep a lookup cache inside the code under test warm.
+pub fn observe_keys<const N: usize>(g: &Sodg<N>) -> Result<Obs, Caught> {
+    guarded(|| {
+        let keys = g.keys();
+        Obs {
+            len: g.len(),
+            is_empty: g.is_empty(),
+            keys,
+            verts: Vec::new(),
+            debug: String::new(),
+            deep: false,
+        }
+    })
+}
+
 pub fn observe<const N: usize>(g: &Sodg<N>, probes: &[PLabel], deep: bool) -> Result<Obs, Caught> {
     guarded(|| {
         let keys = g.keys();
